@@ -13,12 +13,14 @@ import logging
 from dataclasses import dataclass
 from typing import TYPE_CHECKING
 
+from happysimulator.components.queue import QueueNotifyEvent
 from happysimulator.components.queue_policy import FIFOQueue, QueuePolicy
 from happysimulator.components.queued_resource import QueuedResource
 from happysimulator.components.server.concurrency import (
     ConcurrencyModel,
     FixedConcurrency,
 )
+from happysimulator.core.sim_future import _get_active_heap
 from happysimulator.distributions.constant import ConstantLatency
 
 if TYPE_CHECKING:
@@ -102,6 +104,11 @@ class Server(QueuedResource):
             self._concurrency_model = FixedConcurrency(concurrency)
         else:
             self._concurrency_model = concurrency
+
+        # Adjustable models tell us when the limit moves (see _on_limit_changed)
+        add_listener = getattr(self._concurrency_model, "add_limit_listener", None)
+        if add_listener is not None:
+            add_listener(self._on_limit_changed)
 
         self._service_time = service_time or ConstantLatency(0.01)
         self._downstream = downstream
@@ -187,6 +194,19 @@ class Server(QueuedResource):
             requests_rejected=self._requests_rejected,
             total_service_time=self._total_service_time,
         )
+
+    def _on_limit_changed(self, old_limit: int, new_limit: int) -> None:
+        """Offer added capacity to work that is already waiting.
+
+        The driver only polls on a notify or when a request completes, so a
+        limit raised from outside (autoscaling) would otherwise stay unused
+        until the next completion.
+        """
+        if new_limit <= old_limit or self._clock is None or self.depth == 0:
+            return
+        heap = _get_active_heap()
+        if heap is not None:
+            heap.push(QueueNotifyEvent(time=self.now, target=self.driver, queue_entity=self.queue))
 
     def has_capacity(self, weight: int = 1) -> bool:
         """Check if server can accept another request.
